@@ -125,6 +125,16 @@ def session (noDenoise profiling : Bool) (rep : Report) (body : Bool â†’ Bool â†
       let b := body res.useNice res.useShielding
       ([.sudoMinimize profiling] ++ b.trace.map .body ++ restoreNoise (some res), b.ending)
 
+/-- A signal with the *default* action (SIGTERM without a handler, SIGKILL) ends the process on
+the spot: whatever the session had done up to that point (`p` events of the body) stays, nothing
+else happens â€” in particular no `finally`.  ReBench therefore turns SIGTERM into a
+`KeyboardInterrupt` (`subprocess_with_timeout.py:21-32`), which is the `interrupt` ending of
+`session`; the repaired tree installs that handler before the start-up step. -/
+def sessionDies (prof : Bool) (rep : Report) (body : Bool â†’ Bool â†’ Body) (p : Nat) : List Ev :=
+  match minimize rep with
+  | none => [.sudoMinimize prof]
+  | some res => [.sudoMinimize prof] ++ ((body res.useNice res.useShielding).trace.take p).map .body
+
 /-! ## 2b. the parallel scheduler (`executor.py:226-303`)
 
 Worker threads execute benchmarks; the main thread waits for them (`thread.join()`), and it is
